@@ -31,6 +31,9 @@ CheckLaw(e) ==
                                   /\ \A k \in StdKeys : e.query.g[k] = u.g[k])>>,
     <<"query-opaque: '?q' accepted by an opaque-path base", u.fail \/ ~u.g.opaque \/ e.query.fail>>,
     <<"scheme: a scheme-less reference changed the scheme", u.fail \/ \A i \in 1..Len(e.rel) : e.rel[i].fail \/ e.rel[i].g.scheme = u.g.scheme>>,
+    <<"reading the base's SearchParams first changes the base or the result of a resolution",
+        u.fail \/ (/\ SameRes(e.tbase, u) /\ SameRes(e.tempty, e.empty) /\ SameRes(e.thash, e.hash) /\ SameRes(e.tquery, e.query)
+                   /\ Len(e.trel) = Len(e.rel) /\ \A i \in 1..Len(e.rel) : SameRes(e.trel[i], e.rel[i]))>>,
     <<"opaque-base accepted a relative reference other than '#...'",
         u.fail \/ ~u.g.opaque \/ \A i \in 1..Len(e.rel) : e.rel[i].fail \/ (e.relref[i] # <<>> /\ e.relref[i][1] = 35)>>
   >>)
